@@ -192,6 +192,35 @@ def _single_ref_wrapper_target(node: Any) -> str | None:
     return None
 
 
+def _is_plain_value_schema(target_ir: IRSchema) -> bool:
+    """A named enum, primitive alias or array alias (not an object model, composition or placeholder)."""
+    return bool(
+        target_ir.name is not None
+        and not target_ir.properties
+        and not target_ir.all_of
+        and not target_ir.any_of
+        and not target_ir.one_of
+        and (bool(target_ir.enum) or target_ir.type in ("string", "integer", "number", "boolean", "array"))
+        and not target_ir._from_unresolved_ref
+        and not target_ir._is_circular_ref
+    )
+
+
+def _reference_holder(target_ir: IRSchema, wrapper_node: Mapping[str, Any]) -> IRSchema:
+    """An anonymous schema that stands for `target_ir` with the wrapper's annotations (nullable, description, ...)."""
+    return IRSchema(
+        name=None,
+        type=target_ir.name,
+        description=wrapper_node.get("description", target_ir.description),
+        is_nullable=bool(wrapper_node.get("nullable", False)) or target_ir.is_nullable,
+        default=wrapper_node.get("default"),
+        example=wrapper_node.get("example"),
+        items=target_ir.items if target_ir.type == "array" else None,
+        format=target_ir.format,
+        _refers_to_schema=target_ir,
+    )
+
+
 def _parse_properties(
     properties_node: Mapping[str, Any],
     parent_schema_name: str | None,
@@ -220,28 +249,8 @@ def _parse_properties(
         wrapped_ref = _single_ref_wrapper_target(prop_schema_node)
         if wrapped_ref is not None:
             target_ir = _resolve_ref(wrapped_ref, parent_schema_name, context, max_depth_override, allow_self_reference)
-            is_plain_value = (
-                target_ir.name is not None
-                and not target_ir.properties
-                and not target_ir.all_of
-                and not target_ir.any_of
-                and not target_ir.one_of
-                and (bool(target_ir.enum) or target_ir.type in ("string", "integer", "number", "boolean", "array"))
-                and not target_ir._from_unresolved_ref
-                and not target_ir._is_circular_ref
-            )
-            if is_plain_value:
-                parsed_props[prop_name] = IRSchema(
-                    name=None,  # Property name is the dict key, not stored in the schema object
-                    type=target_ir.name,
-                    description=prop_schema_node.get("description", target_ir.description),
-                    is_nullable=bool(prop_schema_node.get("nullable", False)) or target_ir.is_nullable,
-                    default=prop_schema_node.get("default"),
-                    example=prop_schema_node.get("example"),
-                    items=target_ir.items if target_ir.type == "array" else None,
-                    format=target_ir.format,
-                    _refers_to_schema=target_ir,
-                )
+            if _is_plain_value_schema(target_ir):
+                parsed_props[prop_name] = _reference_holder(target_ir, prop_schema_node)
                 continue
 
         if isinstance(prop_schema_node, Mapping) and "$ref" in prop_schema_node:
@@ -574,6 +583,17 @@ def _parse_schema(
             raise TypeError(
                 f"Schema node for '{schema_name or 'anonymous'}' must be a Mapping (e.g., dict), got {type(schema_node)}"
             )
+
+        # The same wrapper idiom (see _parse_properties) in another inline position - array items, the schema of a
+        # parameter, a request body or a response: it stands for the enum / alias it wraps. A component schema that is
+        # itself written this way keeps its own name and is parsed as before.
+        wrapped_ref_here = _single_ref_wrapper_target(schema_node)
+        if wrapped_ref_here is not None and not (schema_name and schema_name in (context.raw_spec_schemas or {})):
+            wrapped_target_ir = _resolve_ref(
+                wrapped_ref_here, schema_name, context, max_depth_override, allow_self_reference
+            )
+            if _is_plain_value_schema(wrapped_target_ir):
+                return _reference_holder(wrapped_target_ir, schema_node)
 
         # If the current schema_node itself is a $ref, resolve it.
         if "$ref" in schema_node:
